@@ -121,11 +121,26 @@ func Harness_C08_Lifecycle() {
 
 	// recover
 	recPatch := gen.ReplacePatch("recovered")
+	// an anchoring window around the recover's transaction time (300), in each of the four shapes
+	var rfrom, runtil int64
+	switch verifrt.Choose("recover-window", 4) {
+	case 1:
+		rfrom, runtil = 250, 350
+	case 2:
+		runtil = 350
+	case 3:
+		rfrom = 250
+	}
 	req, err = NewRecoverRequest(&RecoverRequestInfo{DidSuffix: did, RecoveryKey: rec1.JWK, Patches: []patch.Patch{recPatch}, RecoveryCommitment: gen.Commitment(rec2.JWK, e.code),
-		UpdateCommitment: gen.Commitment(upd3, e.code), AnchorOrigin: origin, MultihashCode: e.code, Signer: rec1.S, RevealValue: gen.Reveal(rec1.JWK, e.code)})
+		UpdateCommitment: gen.Commitment(upd3, e.code), AnchorOrigin: origin, MultihashCode: e.code, Signer: rec1.S, RevealValue: gen.Reveal(rec1.JWK, e.code),
+		AnchorFrom: rfrom, AnchorUntil: runtil})
 	if err != nil {
 		verifrt.Fail("recover builder refuses valid input")
 		return
+	}
+	if internal, perr := e.parser.ParseOperation(e.ns, req, false); perr == nil {
+		sd, serr := e.parser.ParseSignedDataForRecover(internal.SignedData)
+		verifrt.Assert(serr == nil && sd.AnchorFrom == rfrom && sd.AnchorUntil == runtil, "the recover's signed data carries exactly the requested anchoring window")
 	}
 	st = e.accept(req, st, operation.TypeRecover, 300, "recover")
 	want, _ = doccomposer.New().ApplyPatches(map[string]interface{}{}, []patch.Patch{recPatch})
@@ -134,10 +149,24 @@ func Harness_C08_Lifecycle() {
 	verifrt.Reach("recovered")
 
 	// deactivate
-	req, err = NewDeactivateRequest(&DeactivateRequestInfo{DidSuffix: did, RecoveryKey: rec2.JWK, Signer: rec2.S, RevealValue: gen.Reveal(rec2.JWK, e.code)})
+	var dfrom, duntil int64
+	switch verifrt.Choose("deactivate-window", 4) {
+	case 1:
+		dfrom, duntil = 350, 450
+	case 2:
+		duntil = 450
+	case 3:
+		dfrom = 350
+	}
+	req, err = NewDeactivateRequest(&DeactivateRequestInfo{DidSuffix: did, RecoveryKey: rec2.JWK, Signer: rec2.S, RevealValue: gen.Reveal(rec2.JWK, e.code),
+		AnchorFrom: dfrom, AnchorUntil: duntil})
 	if err != nil {
 		verifrt.Fail("deactivate builder refuses valid input")
 		return
+	}
+	if internal, perr := e.parser.ParseOperation(e.ns, req, false); perr == nil {
+		sd, serr := e.parser.ParseSignedDataForDeactivate(internal.SignedData)
+		verifrt.Assert(serr == nil && sd.AnchorFrom == dfrom && sd.AnchorUntil == duntil, "the deactivate's signed data carries exactly the requested anchoring window")
 	}
 	st = e.accept(req, st, operation.TypeDeactivate, 400, "deactivate")
 	verifrt.Assert(st.Deactivated && st.UpdateCommitment == "" && st.RecoveryCommitment == "", "deactivate yields a deactivated state without commitments")
